@@ -659,7 +659,10 @@ class Service(object):
         if t and len(t.outputs) > output_n and t.outputs[output_n].spent is not None:
             return t.outputs[output_n].spent
         else:
-            return bool(self._provider_execute('isspent', txid, output_n))
+            res = self._provider_execute('isspent', txid, output_n)
+            if res is False:
+                raise ServiceError("Could not determine if output is spent, no response from service providers")
+            return bool(res)
 
     def getinfo(self):
         """
